@@ -231,3 +231,11 @@ Definition partial_ok (p : partial_info) (err handled : N) : bool :=
               | NoPartial => 0
               | Partial n m => if (n =? 0) && negb m then 0 else 1
               end)%N.
+
+(** Shutdown while an export is asleep in the back-off (collector that never recovers, MaxElapsedTime far away):
+    Shutdown returns, the export returns an error promptly (within 3 s of the Shutdown call, an unloaded run
+    needs milliseconds), and no request arrives later than 3 s after Shutdown returned. *)
+Definition shutdown_wait_ok (shutdown_returned export_returned : bool) (err : N)
+                            (export_after_call_ns : Z) (late : nat) : bool :=
+  shutdown_returned && export_returned && negb (err =? 0)%N &&
+  (export_after_call_ns <=? 3 * NS_PER_S) && Nat.eqb late 0.
